@@ -907,3 +907,30 @@ Lemma global_trace_full_pass : forall stages parts,
   events (global_trace stages parts) = job_log ACollect stages parts /\
   outs (global_trace stages parts) = concat (map (sem_pipe stages) parts).
 Proof. intros. split; [apply global_trace_events | apply global_trace_outs]. Qed.
+
+(* ---- histories: each action of a sequence on one (uncached) dataset object is evaluated on its own ------------- *)
+Lemma history_nth : forall stages qs parts i q,
+  nth_error qs i = Some q -> nth_error (run_history stages qs parts) i = Some (run_query q stages parts).
+Proof.
+  intros stages qs parts i q H. unfold run_history.
+  exact (map_nth_error (fun q0 => run_query q0 stages parts) i qs H).
+Qed.
+
+Lemma history_length : forall stages qs parts, length (run_history stages qs parts) = length qs.
+Proof. intros. unfold run_history. apply map_length. Qed.
+
+Lemma history_action_exactly_once : forall stages qs parts i a,
+  uncached stages = true -> nth_error qs i = Some (QAction a) ->
+  exists l r, nth_error (run_history stages qs parts) i = Some (l, r) /\
+    Permutation l (pipeline_events stages parts ++ action_events a stages parts) /\
+    NoDup (pipeline_events stages parts ++ action_events a stages parts).
+Proof.
+  intros stages qs parts i a _ Hq. eexists _, _. split.
+  - rewrite (history_nth _ _ _ _ _ Hq). simpl. reflexivity.
+  - apply single_pass_spec.
+Qed.
+
+Lemma history_take_same : forall stages qs parts i n,
+  uncached stages = true -> nth_error qs i = Some (QTake n) ->
+  exists r, nth_error (run_history stages qs parts) i = Some (take_log n stages parts, r).
+Proof. intros stages qs parts i n _ Hq. eexists. rewrite (history_nth _ _ _ _ _ Hq). simpl. reflexivity. Qed.
